@@ -48,4 +48,6 @@ def main : IO Unit := do
     loop h out () SaveSteps.driverStep ()
   | some (.list [.atom "model", .atom "dirty"]) =>
     loop h out ({} : Dirty.DState) Dirty.driverStep {}
+  | some (.list [.atom "model", .atom "pen"]) =>
+    loop h out ({} : Pen.DState) Pen.driverStep {}
   | _ => out.putStrLn "unknown-model"
